@@ -2,7 +2,11 @@ package main
 
 // Fact ConstsC10: first-level encoding constants, label limits and the NBNS packet layout (C10).
 
-import "fmt"
+import (
+	"fmt"
+	"go/ast"
+	"strings"
+)
 
 func init() {
 	facts["ConstsC10"] = constsFact("ConstsC10", "first-level name encoding constants, label limits and NBNS packet layout (C10)", func(c *cx) {
@@ -92,6 +96,139 @@ func init() {
 		c.nats("rr_widths", rr, ints(rr.assign("Type", -1).width(), rr.assign("Class", -1).width(), rr.assign("TTL", -1).width(), rr.assign("RDLength", -1).width()))
 		c.boolean("packet_anyLittle", u, anyLE)
 		c.shapeOf("rr_rdataFits_shape", rr.cond("> len(data)", 1))
-		c.putOrder("packet_encode", p.fn("NBTNSPacket.Marshal"))
+		c10WriteOrderReadable(c, p, p.fn("NBTNSPacket.Marshal"))
+		c10PutOrder(c, "packet_encode", p.fn("NBTNSPacket.Marshal"))
 	})
+}
+
+// c10WriteOrderReadable: "refuse what putOrder cannot name" (DESIGN.md §7).  `putOrder` describes the encoder by the
+// TEXT of each `binary.*.PutUintN / AppendUintN` call of ONE function, in source order.  That text is the write order of
+// the encoder only if (i) every written value names its field — a selector path such as `p.Header.Flags` or `rr.TTL`,
+// possibly inside a conversion — and (ii) no part of the encoding is written somewhere else.  A header written by
+// `for _, w := range [...]uint16{h.TransactionID, …} { buf = AppendUint16(buf, w) }` is ONE call whose value is the loop
+// variable `w`; records written by a helper `appendResourceRecords(buf, section)` are not in the function at all.  Both
+// used to be read as "a different write order" and failed `consts_match_model_marshal_order` although nothing had
+// changed.  This reader does not unroll loops or follow calls; it now REFUSES such a function, so that the run loses
+// the auxiliary tie (§1.1) instead of reporting a changed order.  A changed order written in the known shape
+// (two Put calls exchanged, a width or byte order changed) is still read and still fails the theorem.
+func c10WriteOrderReadable(c *cx, p *cpkg, n cnode) {
+	isPut := func(s string) bool {
+		return strings.HasPrefix(s, "binary.") && (strings.Contains(s, ".PutUint") || strings.Contains(s, ".AppendUint"))
+	}
+	for _, k := range n.callsWith(isPut) {
+		v := k.arg(1).n
+		for {
+			if pe, ok := v.(*ast.ParenExpr); ok {
+				v = pe.X
+			} else if ce, ok := v.(*ast.CallExpr); ok && len(ce.Args) == 1 && cxConversions[render(ce.Fun)] {
+				v = ce.Args[0]
+			} else {
+				break
+			}
+		}
+		if _, ok := v.(*ast.SelectorExpr); !ok {
+			c.failf("package %s: %s: `%s` writes `%s`, which does not name a field (a loop variable or a computed value): the write order cannot be read off this shape",
+				p.dir, n.where, render(k.n), render(k.arg(1).n))
+		}
+	}
+	// functions of the package reachable from n that write integers themselves
+	var writes func(fd *ast.FuncDecl, seen map[*ast.FuncDecl]bool) bool
+	callees := func(fd *ast.FuncDecl) []*ast.FuncDecl {
+		var out []*ast.FuncDecl
+		ast.Inspect(fd.Body, func(m ast.Node) bool {
+			ce, ok := m.(*ast.CallExpr)
+			if !ok {
+				return true
+			}
+			name := ""
+			switch f := ce.Fun.(type) {
+			case *ast.Ident:
+				name = f.Name
+			case *ast.SelectorExpr:
+				name = f.Sel.Name
+			}
+			for dn, g := range p.funcs {
+				if dn == name || strings.HasSuffix(dn, "."+name) {
+					out = append(out, g)
+				}
+			}
+			return true
+		})
+		return out
+	}
+	writes = func(fd *ast.FuncDecl, seen map[*ast.FuncDecl]bool) bool {
+		if seen[fd] {
+			return false
+		}
+		seen[fd] = true
+		if len((cnode{p, fd, ""}).callsWith(isPut)) > 0 {
+			return true
+		}
+		for _, g := range callees(fd) {
+			if writes(g, seen) {
+				return true
+			}
+		}
+		return false
+	}
+	root := n.n.(*ast.FuncDecl)
+	for _, g := range callees(root) {
+		if g != root && writes(g, map[*ast.FuncDecl]bool{root: true}) {
+			c.failf("package %s: %s calls %s, which writes integers of the encoding itself: the write order is spread over several functions and cannot be read off this shape",
+				p.dir, n.where, funcDisplayName(g))
+		}
+	}
+}
+
+// c10PutOrder is putOrder with one normalisation, "position of an append" (DESIGN.md §7).  Canonical form of a
+// write at a fixed position: `PutUintN(buf[lo:hi], v)` -> "<N><order>:<v>@buf[lo:hi]".  The same bytes are written by
+// `buf = AppendUintN(buf, v)` when the length of buf at that statement is known: buf was created by
+// `buf := make([]byte, 0[, cap])` and every statement since is such an append, at the top level of the function (no
+// loop, no branch, no other mention of buf in between).  Then the append lands at [lo:lo+N/8] with lo the sum of the
+// widths so far, and is rendered with that destination.  From the first other statement on, appends have no known
+// position and are rendered without one, as before.
+func c10PutOrder(c *cx, name string, n cnode) {
+	isPut := func(s string) bool {
+		return strings.HasPrefix(s, "binary.") && (strings.Contains(s, ".PutUint") || strings.Contains(s, ".AppendUint"))
+	}
+	static := map[ast.Node]string{}
+	fd := n.n.(*ast.FuncDecl)
+	buf, off := "", 0
+	for _, st := range fd.Body.List {
+		as, ok := st.(*ast.AssignStmt)
+		if ok && len(as.Lhs) == 1 && len(as.Rhs) == 1 {
+			lhs := render(as.Lhs[0])
+			if call, ok := as.Rhs[0].(*ast.CallExpr); ok {
+				if buf == "" && render(call.Fun) == "make" && len(call.Args) >= 2 && render(call.Args[0]) == "[]byte" && render(call.Args[1]) == "0" {
+					buf, off = lhs, 0
+					continue
+				}
+				if buf != "" && lhs == buf && isPut(render(call.Fun)) && strings.Contains(render(call.Fun), ".AppendUint") && len(call.Args) == 2 && render(call.Args[0]) == buf {
+					w := (cnode{n.p, call, n.where}).width()
+					static[call] = fmt.Sprintf("@%s[%d:%d]", buf, off, off+w/8)
+					off += w / 8
+					continue
+				}
+			}
+		}
+		if buf != "" {
+			break // anything else: the length of buf is no longer known here
+		}
+	}
+	var out []string
+	for _, k := range n.callsWith(isPut) {
+		e := "b"
+		if k.little() {
+			e = "l"
+		}
+		dst := static[k.n]
+		if _, ok := k.arg(0).n.(*ast.SliceExpr); ok {
+			dst = "@" + k.arg(0).text() // written in place at a fixed position
+		}
+		out = append(out, fmt.Sprintf("%d%s:%s%s", k.width(), e, k.arg(1).text(), dst))
+	}
+	if len(out) == 0 {
+		c.failf("package %s: %s: no binary.*.PutUintN calls", n.p.dir, n.where)
+	}
+	c.texts(name, n, out)
 }
